@@ -661,6 +661,36 @@ func reportVsState(kind string, st *BiasStep) string {
 				return m
 			}
 		}
+	case "anchoring-inline":
+		// the applied differences it reports are the differences between the values it received and
+		// the values it handed on (for every alternative it lists)
+		var ar struct {
+			AppliedDifferences []altJ `json:"appliedDifferences"`
+		}
+		if json.Unmarshal(ri.raw["applierResult"], &ar) != nil || st.Current == nil {
+			return ""
+		}
+		for _, d := range ar.AppliedDifferences {
+			for _, a := range nxt.all() {
+				if a.Id != d.Id {
+					continue
+				}
+				for c, diff := range d.Criteria {
+					before, ok1 := st.Current.value(a.Id, c)
+					after, ok2 := a.Criteria[c]
+					if !ok1 || !ok2 {
+						continue
+					}
+					scale := math.Max(1, math.Max(math.Abs(before), math.Max(math.Abs(after), math.Abs(diff))))
+					if math.IsNaN(before+diff-after) || math.IsInf(before+diff-after, 0) {
+						continue // outside the finite domain
+					}
+					if math.Abs(before+diff-after) > 1e-9*scale {
+						return fmt.Sprintf("report says the difference applied to %q on %q is %v; the step received %v and the next stage received %v (difference %v)", a.Id, c, diff, before, after, after-before)
+					}
+				}
+			}
+		}
 	case "omission":
 		for _, o := range ri.omitted {
 			if contains(critIDs(nxt.Criteria), o) {
